@@ -307,6 +307,34 @@ template <typename SK, typename T, typename C> void chk_req(const Ctx& c, SK& sk
   state((std::string(f) + (sk.is_empty() ? "/empty" : sk.is_estimation_mode() ? "/estimation" : "/exact")).c_str());
 }
 
+// Older writers of the same documented layout (serial version 3 compact without the ORDERED flag, and serial version 2, which has no flags at
+// all) store the base buffer in arrival order. The same content in those forms - base buffer reversed, flags / version byte rewritten - must
+// decode to the same sketch ("old images stay readable"). float items only (fixed 4-byte items at offset 24).
+void chk_qs_legacy_forms(const Ctx& c, const fam::QsF& sk, size_t bb) {
+  if (sk.is_empty() || bb < 2 || c.img.size() < 24 + 4 * bb) return;
+  bool all_equal = true;
+  for (size_t i = 1; i < bb; ++i) if (std::memcmp(c.img.data() + 24, c.img.data() + 24 + 4 * i, 4) != 0) all_equal = false;
+  if (all_equal) return;
+  const std::string want = fam::observe_quantiles<fam::QsF, float, std::less<float>>(sk, fam::probes_for<float>());
+  for (int form = 0; form < 2; ++form) {
+    fam::Bytes m = c.img;
+    if (form == 0) m[3] = static_cast<uint8_t>(m[3] & ~0x10);   // serial version 3, COMPACT only
+    else { m[1] = 2; m[3] = 0; }                                  // serial version 2: always compact, no flags
+    for (size_t i = 0; i < bb / 2; ++i) for (int b = 0; b < 4; ++b) std::swap(m[24 + 4 * i + b], m[24 + 4 * (bb - 1 - i) + b]);
+    const char* fname = form == 0 ? "v3 compact, not ordered" : "serial version 2";
+    auto r1 = fam::QsF::deserialize(m.data(), m.size());
+    std::istringstream is(std::string(m.begin(), m.end()), std::ios::binary);
+    auto r2 = fam::QsF::deserialize(is);
+    std::string o1 = fam::observe_quantiles<fam::QsF, float, std::less<float>>(r1, fam::probes_for<float>());
+    std::string o2 = fam::observe_quantiles<fam::QsF, float, std::less<float>>(r2, fam::probes_for<float>());
+    VF_CHECK(o1 == want, "qs-legacy-form", WHO << "the same content as a '" << fname << "' image with the base buffer in another order decodes (bytes) to a different sketch:\n  " << o1.substr(0, 400) << "\n  expected " << want.substr(0, 400));
+    VF_CHECK(o2 == want, "qs-legacy-form", WHO << "the same content as a '" << fname << "' image with the base buffer in another order decodes (stream) to a different sketch");
+    vf::count("qs-legacy-forms-checked");
+  }
+}
+template <typename SK> void chk_qs_legacy(const Ctx&, const SK&, size_t) {}
+template <> void chk_qs_legacy<fam::QsF>(const Ctx& c, const fam::QsF& sk, size_t bb) { chk_qs_legacy_forms(c, sk, bb); }
+
 template <typename SK, typename T, typename C> void chk_qs(const Ctx& c, SK& sk, const char* f) {
   auto im = decode(c, L::decode_quantiles<T>);
   common_u(c, im);
@@ -327,6 +355,7 @@ template <typename SK, typename T, typename C> void chk_qs(const Ctx& c, SK& sk,
   auto api = iterate<SK, T>(sk);
   VF_CHECK(img_items == api, "qs-items", WHO << "(item, weight) sequence decoded from the image differs from the iterated one: " << first_diff(img_items, api) << IMG);
   state((std::string(f) + (sk.is_empty() ? "/empty" : sk.is_estimation_mode() ? "/estimation" : "/exact")).c_str());
+  chk_qs_legacy<SK>(c, sk, im.base_buffer.size());
 }
 
 // ---------------------------------------------------------------- frequent items
@@ -625,14 +654,44 @@ rc::Gen<Case> gen() {
                    ops);
 }
 
+// Field-width boundaries of the compressed Theta image: the retained-entry count is stored in the fewest whole bytes that hold it, so counts
+// next to a power of 256 are where the documented width is decided. Deterministic enumeration (exact mode with n distinct keys, and trimmed
+// estimation mode with exactly k entries), both image variants, same independent reader and checks as the generated cases.
+void prop_theta_boundary(const Case& cs) {
+  const uint64_t n = static_cast<uint64_t>(std::max<int64_t>(1, std::min<int64_t>(70000, cs.get("n", 256))));
+  const bool est = cs.get("est", 0) & 1;
+  uint8_t lg_k = 5; while ((1ull << lg_k) < n) ++lg_k;
+  auto us = datasketches::update_theta_sketch::builder().set_lg_k(lg_k).build();
+  const uint64_t feed = est ? n * 6 : n;
+  for (uint64_t i = 0; i < feed; ++i) us.update(static_cast<int64_t>(i * 7 + 3));
+  if (est) us.trim();
+  fam::ThetaObj o(us.compact(true), datasketches::DEFAULT_SEED, lg_k);
+  for (int v = 0; v < 2; ++v) {
+    fam::Bytes img = o.bytes(0, v);
+    Ctx c{"theta", v, img};
+    chk_theta(c, o);
+    auto r = datasketches::compact_theta_sketch::deserialize(img.data(), img.size());
+    VF_CHECK(fam::ThetaObj::obs(r) == o.observe(), "theta-boundary-readback", WHO << "the library's own reader does not recover the sketch with " << o.sk.get_num_retained() << " entries");
+  }
+  vf::label(est ? "theta-boundary:trimmed" : "theta-boundary:exact");
+  vf::nontrivial();
+}
+void enum_theta_boundary(std::function<bool(const Case&)> run) {
+  for (int64_t n : {1, 2, 255, 256, 257, 65535, 65536, 65537}) { Case c; c.set("n", n); c.set("est", 0); if (!run(c)) return; }
+  for (int64_t n : {256, 65536}) { Case c; c.set("n", n); c.set("est", 1); if (!run(c)) return; }
+}
+
 }  // namespace
 
 int main(int argc, char** argv) {
+  std::vector<vf::Sub> subs;
+  subs.push_back({"layout", gen, prop, 1.0});
+  { vf::Sub b; b.name = "theta-count-boundaries"; b.prop = prop_theta_boundary; b.enumerate = enum_theta_boundary; subs.push_back(b); }
   return vf::main_driver(argc, argv, "C10", "c10_layout",
                          "case = a recipe (family out of 22 concrete types, configuration, update/merge batches -> reachable state) + optional query before serializing; "
                          "every format variant of the state is serialized and decoded by an independent reader written from the documented layout only (never the library's "
                          "deserializer); checks: the reader accepts the image, accounts for every byte, unused bytes are zero, and configuration, flags, n / counts / weights, "
                          "theta, seed hash (also vs the published definition), min/max, and the retained entries / items / registers / cells / centroids / bits with their weights "
                          "and documented order equal what the public API reports for the same object; non-trivial = image not empty; distinct = distinct case text",
-                         {{"layout", gen, prop, 1.0}});
+                         subs);
 }
